@@ -14,7 +14,7 @@ except Exception:
     commits = []
 checks = []
 for pid in ALL_IDS:
-    if pid not in PROPS: continue
+    if pid not in PROPS or PROPS[pid].get('pending'): continue
     p = PROPS[pid]
     checks.append({
         "property_id": pid,
@@ -28,9 +28,10 @@ for pid in ALL_IDS:
         "technique": p["technique"],
     })
 na = [{"property_id": pid, "reason": "not claimed yet: the check described in DESIGN.md section 5 for this property is not built in the committed tree"}
-      for pid in ALL_IDS if pid not in PROPS]
+      for pid in ALL_IDS if pid not in PROPS or PROPS[pid].get('pending')]
 engines = {}
 for pid, p in PROPS.items():
+    if p.get('pending'): continue
     engines.setdefault(p["crate"], []).append(pid)
 m = {
     "version": 1,
